@@ -95,4 +95,105 @@ example :
                4, 0, 1, 42]).toOption.map (fun h => (h.addressBytes, h.tlvBytes, h.length)) =
       some ([127, 0, 0, 1, 192, 168, 1, 1, 0, 80, 1, 187], [4, 0, 1, 42], 16) := by decide
 
+/-! ### Additions after audit 4: where the split is, the helper methods, the nibbles -/
+
+/-- Where the partition splits (the non-degenerate content of "partition"; `views_partition`
+alone holds for any split point): on an accepted header `address_bytes_end()` lies inside
+the buffer and not below 16 (so the two Rust slices are in range), the address view is the
+first `size` bytes of the payload and the TLV view is everything after them, where `size`
+is the protocol's size of the header's family, or the whole payload for the unspecified
+family. -/
+theorem split_point {x : B} {h : Header} (hp : V2.parse x = .ok h) :
+    16 ≤ h.addressBytesEnd ∧ h.addressBytesEnd ≤ h.header.length ∧
+    h.addressBytes = (h.header.drop 16).take
+      (if h.addressFamily = .unspec then h.length else familySize h.addressFamily) ∧
+    h.tlvBytes = (h.header.drop 16).drop
+      (if h.addressFamily = .unspec then h.length else familySize h.addressFamily) := by
+  obtain ⟨rest, hle, he⟩ := accepted_is_encoding hp
+  obtain ⟨h1, h2, h3, h4⟩ := views_of_encode h.command h.protocol h.addresses rest
+  have hal := addrBytes_length h.addresses
+  obtain ⟨-, hl2, hl3, -⟩ := lengths hp
+  rw [← he] at h1 h2 h3 h4
+  have hlen : h.length = (h.header.drop 16).length := by simp [Header.length, minLen]
+  have hnil : h.addresses.family = .unspec → addrBytes h.addresses = [] := by
+    intro hf
+    rw [hf] at hal
+    exact List.eq_nil_of_length_eq_zero hal
+  refine ⟨?_, ?_, ?_, ?_⟩
+  · simp only [Header.addressBytesEnd, minLen]; omega
+  · simp only [Header.addressBytesEnd, Header.length, List.length_drop, minLen]; omega
+  · rw [h3, h2]
+    simp only [Header.addressFamily]
+    by_cases hf : h.addresses.family = .unspec
+    · simp only [hf, if_true]
+      rw [hlen, h2, hnil hf]
+      simp
+    · simp only [hf, if_false]
+      rw [← hal]; simp
+  · rw [h4, h2]
+    simp only [Header.addressFamily]
+    by_cases hf : h.addresses.family = .unspec
+    · simp only [hf, if_true]
+      rw [hlen, h2, hnil hf]
+      simp
+    · simp only [hf, if_false]
+      rw [← hal]; simp
+
+/-- The helper methods named in the anchors: `Header::is_empty` is `false` on every
+accepted header; `Addresses::is_empty` holds exactly for the unspecified family;
+`u16::from(AddressFamily)` is the protocol's address-block size (no `as u16` wrap);
+for the unspecified family the TLV view is empty. -/
+theorem helpers {x : B} {h : Header} (hp : V2.parse x = .ok h) :
+    h.isEmpty = false ∧ h.addresses.isEmpty = decide (h.addressFamily = .unspec) ∧
+    h.addressFamily.toU16 = familySize h.addressFamily ∧
+    (h.addressFamily = .unspec → h.tlvBytes = []) := by
+  obtain ⟨-, hl2, hl3, -⟩ := lengths hp
+  obtain ⟨-, -, -, ht⟩ := split_point hp
+  refine ⟨?_, ?_, ?_, ?_⟩
+  · cases hh : h.header with
+    | nil => rw [hh] at hl3; simp at hl3; omega
+    | cons a l => simp [Header.isEmpty, hh]
+  · simp only [Header.addressFamily]
+    have key : ∀ a : Addresses, a.isEmpty = decide (a.family = .unspec) := by
+      intro a; cases a <;> simp [Addresses.isEmpty, Addresses.family, Family.byteLength]
+    exact key _
+  · cases h.addressFamily <;> rfl
+  · intro hu
+    rw [ht, if_pos hu]
+    simp only [Header.length, minLen, List.drop_drop, List.drop_eq_nil_iff, List.length_drop]
+    omega
+
+/-- The nibbles on the wire, stated as nibbles: the high half of byte 13 is the family
+code of the protocol document (0, 1, 2, 3), the low half the transport code (0, 1, 2), and
+the high half of byte 12 is the version, 2. -/
+theorem nibbles {x : B} {h : Header} (hp : V2.parse x = .ok h) :
+    (byteAt h.header 13).toNat / 16 = familyNibble h.addressFamily ∧
+    (byteAt h.header 13).toNat % 16 = transportNibble h.protocol ∧
+    (byteAt h.header 12).toNat / 16 = 2 := by
+  obtain ⟨h13, h12, -, -⟩ := family hp
+  rw [h13, h12]
+  refine ⟨?_, ?_, ?_⟩
+  · cases h.addressFamily <;> cases h.protocol <;> decide
+  · cases h.addressFamily <;> cases h.protocol <;> decide
+  · cases h.command <;> decide
+
+/-- Non-vacuity of `split_point` / `helpers` / `nibbles`: the IPv6 / DGRAM header with an
+empty TLV section, and the IPv4 header above; the values are the ones the theorems give. -/
+example :
+    (V2.parse [0x0D, 0x0A, 0x0D, 0x0A, 0x00, 0x0D, 0x0A, 0x51, 0x55, 0x49, 0x54, 0x0A,
+               0x21, 0x11, 0x00, 0x10, 127, 0, 0, 1, 192, 168, 1, 1, 0, 80, 1, 187,
+               4, 0, 1, 42]).toOption.map
+      (fun h => ([h.addressBytesEnd, h.addressFamily.toU16,
+                  (byteAt h.header 13).toNat / 16, (byteAt h.header 13).toNat % 16,
+                  (byteAt h.header 12).toNat / 16], h.isEmpty, h.addresses.isEmpty)) =
+      some ([28, 12, 1, 1, 2], false, false) := by decide
+
+example :
+    (V2.parse [0x0D, 0x0A, 0x0D, 0x0A, 0x00, 0x0D, 0x0A, 0x51, 0x55, 0x49, 0x54, 0x0A,
+               0x20, 0x02, 0x00, 0x03, 7, 8, 9]).toOption.map
+      (fun h => ([h.addressBytesEnd, h.addressFamily.toU16, (byteAt h.header 13).toNat / 16,
+                  (byteAt h.header 13).toNat % 16], h.addressBytes, h.tlvBytes,
+                 h.addresses.isEmpty)) =
+      some ([19, 0, 0, 2], [7, 8, 9], [], true) := by decide
+
 end C14
